@@ -72,10 +72,9 @@ func typeMatches(ty string, v interface{}) (ok bool, dontcare bool) {
 	vt := TypeOf(v)
 	switch ty {
 	case "any":
-		if vt == "expref" {
-			return false, true
-		}
-		return true, false
+		// any = any JSON value; an expression reference is not one (C10:
+		// "an expression reference where a value is required … is an error")
+		return vt != "expref", false
 	case "array[number]", "array[string]":
 		arr, is := v.([]interface{})
 		if !is {
